@@ -201,6 +201,10 @@ fn plan(p: &mut Plan<'_>) {
             p.part(ccsim::CcSim, 5_000, 1_000_000, "one real congestion controller (ArcCC: NewReno, RTT estimator, pacer, loss detection, PTO) on tokio's paused clock, ticked every 10 ms as Path::drive does; the case scripts sends in three spaces (sizes, ack-eliciting / in-flight flags, packet-number gaps), per-packet fates (deliver after a delay, drop, black hole), acknowledgement frames built from what reached the peer (gaps, range limits, stale, delayed beyond max_ack_delay, ECN-CE counts), handshake phase changes, anti-amplification flags and epoch discards on both roles; reference model = set of outstanding packets + RFC 9002 rules evaluated on the H1 snapshot after every call; drain phase without acks bounded to 120 virtual seconds; non-trivial = a fault fired and packets were acknowledged; distinct = hash of the call/result history");
             p.assumptions = vec!["loss threshold judged with 0.2% tolerance against 9/8 of the larger of smoothed and latest RTT, at least 1 ms", "RFC 9002 7.6 duration-based persistent congestion is accepted as a legitimate second reduction", "ack-eliciting-but-not-in-flight packets are not generated (unreachable through qbase::packet)"];
         }
+        "C04" => {
+            p.part(byzsim::ByzSim, 4_000, 400_000, "one forged but well-formed frame (or packet number) per case after a short legitimate history (0..200 ops) on the real handlers in the stack's dispatch order: ACK into ArcCC / rcvd-journal / sent-journal, packet-number jumps into decode_pn / on_rcvd_pn / ACK generation, NEW_CONNECTION_ID / RETIRE_CONNECTION_ID / active_connection_id_limit into the cid managers on a shared router, stream / flow-control / stream-count frames into DataStreams + FlowController, CRYPTO offsets into the crypto stream; the field under test takes values from {0, 1, state boundary +-1, 2^8..2^22 ladder, 2^31+-1, 2^62-1}; per handler the bytes allocated (exact) and the thread CPU time are metered along the ladder with state and frame size constant; expected error kinds from an RFC 9000 reference model of the state; non-trivial = a history preceded the forged frame; distinct = hash of field, answers, emitted frames per probe");
+            p.assumptions = vec!["work thresholds: memory >= 1 MiB and > 256 B per (frame byte + state entry) + 64 KiB and >= 64x the ladder bottom; CPU >= 2 ms for the chain and > 1 us per unit + 0.5 ms, named handler >= 0.5 ms and >= 64x its ladder bottom, minimum of 3..8 readings", "values above 2^22 are only sent to handler chains the ladder showed to be value-independent", "frames are handed over as decrypted payload: packet protection and assembly are not part of the metered work"];
+        }
         other => die(&format!("no check for property {other}")),
     }
 }
